@@ -135,3 +135,32 @@ func init() {
 		}
 	}
 }
+
+func init() {
+	debugHooks["pins"] = func(P *Program, M *Model, arg string) {
+		for fn := range P.AllFuncs {
+			if !containsStr(FuncName(fn), arg) || fn.Parent() != nil || len(fn.Blocks) == 0 {
+				continue
+			}
+			pins, family := P.ContextPins(fn)
+			fmt.Printf("ROOT %s\n", FuncName(fn))
+			for g, c := range pins {
+				fmt.Printf("  PIN %s <- %s\n", FuncName(g), P.Pos(c.Pos()))
+			}
+			P.PinnedAll(pins, func() {
+				for f := range family {
+					fmt.Printf("  FAMILY %s callers=%d\n", FuncName(f), len(P.Callers(f)))
+					for _, p := range f.Params {
+						fmt.Printf("     param %s = %s\n", p.Name(), short(P.Desc(p)))
+					}
+				}
+				fmt.Printf("  dyn calls: %d\n", len(P.dynCalls))
+				for _, ci := range P.dynCalls {
+					if containsStr(FuncName(ci.Parent()), arg) || containsStr(FuncName(ci.Parent()), "forEach") {
+						fmt.Printf("    DYN %s in %s -> %v\n", P.Pos(ci.Pos()), FuncName(ci.Parent()), P.closureValue(ci.Common().Value, 0))
+					}
+				}
+			})
+		}
+	}
+}
